@@ -26,6 +26,7 @@ RULE = (
     "(99,100,254,255) or id-request/response with child != 255 or |type| >= 2^31; distinct = distinct case JSON."
     ' Round 5: the schema/gateway may be built in a copied contextvars context or another thread (`ctx`), and the warm-up may contain ill-formed look-alikes of the message (each field replaced, or the line cut short).'
     ' Round 6: a decoded message (or a copy of it) edited by the caller must encode to its edited fields.'
+    " Round 7: header grid (nodes x shapes x ack x types 0-40) with a ';' payload; line-ending variants decoded before the encoder is checked."
 )
 ASSUMPTIONS = [
     "MessageSchema with set_protocol(get_protocol(v)) is the codec entry point (as in the repository's tests)",
@@ -50,23 +51,24 @@ def warm_lines(msg: list, muts: list) -> list[str]:
     out = []
     for pos, text in muts:
         fields = [str(x) for x in msg[:5]] + [msg[5]]
-        if pos == "cut":
+        if pos in ("cut", "cutraw"):
             fields = fields[: int(text)]
         else:
             fields[pos] = text
-        out.append(";".join(fields) + "\n")
+        out.append(";".join(fields) + ("" if pos == "cutraw" else "\n"))  # "cutraw": a fragment without terminator (a partial read)
     return out
 
 
 def strategy(tier: str):
     mut = st.one_of(
         st.tuples(st.integers(0, 5), st.sampled_from(WARM_TEXT)).map(list),
-        st.tuples(st.just("cut"), st.sampled_from(("0", "1", "3", "4", "5"))).map(list),
+        st.tuples(st.sampled_from(("cut", "cutraw")), st.sampled_from(("0", "1", "3", "4", "5"))).map(list),
     )
     return st.fixed_dictionaries(
         {
             "version": gen.versions,
-            "msg": gen.wellformed_message(),
+            "msg": st.one_of(gen.wellformed_message(), gen.wellformed_message(), gen.wellformed_message(),
+                             st.tuples(gen.wellformed_message(), st.sampled_from(("\ud800", "t \ud83c", "a\udfffb;c", "\udc80"))).map(lambda t: t[0][:5] + [t[1]])),
             "ending": st.sampled_from(ENDINGS),
             "warmup": st.one_of(st.just([]), st.lists(gen.wellformed_message().map(gen.line_of), max_size=3)),
             "warm_mut": st.one_of(st.just([]), st.lists(mut, min_size=1, max_size=3)),
@@ -102,6 +104,10 @@ def enumerate_cases(tier: str):
                     yield {"version": version, "msg": msg, "ending": "\n", "warmup": [], "warm_mut": [[pos, text]]}
             for cut in ("0", "1", "3", "4", "5"):
                 yield {"version": version, "msg": msg, "ending": "\n", "warmup": [], "warm_mut": [["cut", cut]]}
+                yield {"version": version, "msg": msg, "ending": "\n", "warmup": [], "warm_mut": [["cutraw", cut]]}
+            # payloads holding lone surrogates (what json.loads or surrogateescape decoding hand to an application): plain str data for the codec
+            for text in ("\ud800", "temp \ud83c", "a\udfffb", "\udc80;\udcff", "x" * 30 + "\ud800"):
+                yield {"version": version, "msg": msg[:5] + [text], "ending": "\n", "warmup": []}
             for ctx in env.CTX_MODES:
                 yield {"version": version, "msg": msg, "ending": "\n", "warmup": [], "ctx": ctx}
         for size in (51, 200, 65530, 65537, 70000, 200000):
